@@ -185,7 +185,9 @@ def run_unoriented(case, rec):
     Im = np.asarray(direct_model.call_kernel(model.make_kernel([qa*(1 - 4.5e-16)]), dict(pars)), float)
     sc = float(np.max(np.abs(I1)))
     tol = np.abs(Ip - I1) + np.abs(Im - I1) + 1e-12*np.abs(I1) + 1e-14*sc
-    rec.check("unoriented_depends_on_absq", bool(np.all(np.abs(I2 - I1) <= tol)),
+    fin = np.isfinite(I1) & np.isfinite(I2)
+    same_nan = bool(np.array_equal(np.isnan(I1), np.isnan(I2)))
+    rec.check("unoriented_depends_on_absq", same_nan and bool(np.all(np.abs(I2 - I1)[fin] <= tol[fin])),
               {"model": name, "pars": pars, "qx": qx, "qy": qy, "two_d": I2, "one_d_at_absq": I1})
     rec.set_shape((name, "unoriented"), True)
 
